@@ -187,6 +187,11 @@ func (column *ColumnData) readData(reader io.Reader, format base.BoundValueForma
 		column.data = nil
 		return nil
 	}
+	// the length is taken from the packet: it must fit into what is left of the packet, otherwise a few
+	// bytes sent by the peer would make us allocate gigabytes before the short read is noticed
+	if sized, ok := reader.(interface{ Len() int }); ok && (length < 0 || length > sized.Len()) {
+		return ErrInvalidPacketLength
+	}
 	data := make([]byte, length)
 
 	// first 4 bytes is packet length and then 2 bytes of column count
@@ -216,6 +221,9 @@ func (column *ColumnData) SetDataLength(length uint32) {
 
 // parseColumns split whole data row packet into separate columns data
 func (packet *PacketHandler) parseColumns(columnFormats []uint16) error {
+	if packet.descriptionBuf.Len() < 2 {
+		return ErrInvalidPacketLength
+	}
 	packet.columnCount = int(binary.BigEndian.Uint16(packet.descriptionBuf.Bytes()[:2]))
 
 	if packet.columnCount == 0 {
@@ -441,6 +449,10 @@ func (packet *PacketHandler) ReplaceBind(bindPacket *BindPacket) error {
 
 // GetSimpleQuery return query value as string from Query packet
 func (packet *PacketHandler) GetSimpleQuery() (string, error) {
+	// the query is a null-terminated string, so there is at least the terminator
+	if packet.dataLength < 1 || packet.dataLength > packet.descriptionBuf.Len() {
+		return "", ErrInvalidPacketLength
+	}
 	return string(packet.descriptionBuf.Bytes()[:packet.dataLength-1]), nil
 }
 
@@ -467,11 +479,27 @@ func (packet *PacketHandler) readData(readLength bool) error {
 			return err
 		}
 	}
-	packet.descriptionBuf.Grow(packet.dataLength)
+	// The length is chosen by the peer. It counts itself, so anything below 4 is malformed; and a huge
+	// value must not make us allocate that much before a single byte of data has arrived: reserve
+	// a bounded amount, the buffer keeps growing while the data is actually being received.
+	if packet.dataLength < 0 {
+		return ErrInvalidPacketLength
+	}
+	if packet.dataLength <= maxPreallocatedPacketData {
+		packet.descriptionBuf.Grow(packet.dataLength)
+	} else {
+		packet.descriptionBuf.Grow(maxPreallocatedPacketData)
+	}
 	packet.logger.Debugln("Read data")
 	nn, err := io.CopyN(packet.descriptionBuf, packet.reader, int64(packet.dataLength))
 	return base.CheckReadWrite(int(nn), packet.dataLength, err)
 }
+
+// ErrInvalidPacketLength is returned for a packet whose declared length is smaller than the length field itself
+var ErrInvalidPacketLength = errors.New("invalid packet length")
+
+// maxPreallocatedPacketData limits the memory reserved for a packet before its data arrives
+const maxPreallocatedPacketData = 64 * 1024
 
 // ReadPacket read message type and data part of packet
 func (packet *PacketHandler) ReadPacket() error {
